@@ -98,7 +98,12 @@ def scenario(c: Any, P: dict) -> dict:
         elif it["mode"] == "rel_td":
             d = s.schedule_relative(datetime.timedelta(seconds=it["delay"]), make(i))
         else:
-            d = s.schedule_absolute(datetime.datetime.fromtimestamp(c.clock + it["delay"], tz=D.UTC), make(i))
+            # the same instant, written in another time zone for two items out of three
+            when = datetime.datetime.fromtimestamp(c.clock + it["delay"], tz=D.UTC)
+            hours = (None, -3, 5.5)[i % 3]
+            if hours is not None:
+                when = when.astimezone(datetime.timezone(datetime.timedelta(hours=hours)))
+            d = s.schedule_absolute(when, make(i))
         info[i]["disp"] = d
 
     def canceller() -> None:
